@@ -101,7 +101,7 @@ def run(run: Run, pkg: Package) -> None:
         if l == 0:
             ok, how = S.decide_equal(S.to_sympy(ret), sp.sqrt(1 / (4 * sp.pi)))
             run.ob("R-TABLE-YLM", fq, "Y_0,0", ok, "SphHarm0 returns 1/(2 sqrt(pi))", how, loc=fi.loc(),
-                   witness=None if ok else how)
+                   witness=None if ok else how, sound=True)
             n_forms += 1
             continue
         params = fi.params
@@ -115,7 +115,7 @@ def run(run: Run, pkg: Package) -> None:
             raise AnalysisError(f"{q}: return value is not an array built from a literal list of entries: {show(ret)[:100]}")
         ok_len = len(entries) == 2 * l + 1
         run.ob("R-TABLE-YLM", fq, f"l={l}:count", ok_len, f"SphHarm{l} returns 2l+1 = {2 * l + 1} entries (m = -l..l)",
-               f"{len(entries)} entries", loc=fi.loc(), witness=None if ok_len else f"len = {len(entries)}")
+               f"{len(entries)} entries", loc=fi.loc(), witness=None if ok_len else f"len = {len(entries)}", sound=True)
         if not ok_len:
             continue
         atom_of = table_atom(("sym", params[0]), ("sym", params[1]))
@@ -143,7 +143,7 @@ def run(run: Run, pkg: Package) -> None:
                 pt = {c_: sp.Rational(3, 5), s_: sp.Rational(4, 5), z_: sp.exp(sp.I)}
                 wv = f"cos(theta)=3/5, sin(theta)=4/5, phi=1: code={sp.N(e.subs(pt), 12)} definition={sp.N(ref.subs(pt), 12)}"
                 run.ob("R-TABLE-YLM", fq, key, False, f"entry {k} of SphHarm{l} equals Y_{l},{m}(theta, phi) identically",
-                       f"code - definition = {sp.sstr(sp.factor(d))[:200]}", witness=wv, loc=fi.loc())
+                       f"code - definition = {sp.sstr(sp.factor(d))[:200]}", witness=wv, loc=fi.loc(), sound=True)     # exact canonical forms differ; numeric direction shown
     run.minimum("R-TABLE-YLM", 121 + 10)
 
     # ---------------------------------------------------------------- dispatcher
@@ -213,7 +213,7 @@ def run(run: Run, pkg: Package) -> None:
         if bad_special is not None:
             r, wit = bad_special
             run.ob("R-DISPATCH", fq, key, False, f"degree {lv} returns the table of degree {lv} for every direction", f"special-case return {show(r.data['value'])[:60]} under {show(r.guards[-1][0])[:60]}",
-                   witness=wit, loc=loc_of(it, r))
+                   witness=wit, loc=loc_of(it, r), sound=True)     # a concrete direction at which the special-case return differs from Y_lm
             continue
         if und_special is not None:
             run.ob("R-DISPATCH", fq, key, None, f"degree {lv} reaches one return", f"special-case return under a guard on the angles: no differing direction found among 15 sampled ones (not a proof) / not evaluable: {show(und_special.guards[-1][0])[:80]}", loc=fi.loc())
@@ -222,16 +222,27 @@ def run(run: Run, pkg: Package) -> None:
         if not finals:
             run.ob("R-DISPATCH", fq, key, False, f"degree {lv} is dispatched to its table",
                    "no return is selected: the call falls through and yields None",
-                   witness=f"sph_harm_l({lv}, theta, phi) is None", loc=fi.loc())
+                   witness=f"sph_harm_l({lv}, theta, phi) is None", loc=fi.loc(), sound=True)    # every return is refuted by the tests on l for this degree
             continue
         val = finals[0].data["value"]
         ok = all(is_table_call(r.data["value"]) for r in finals)
+        if not ok:
+            # definite: another degree's table is called, or this one with its (theta, phi) arguments exchanged
+            def wrong_call(v_):
+                if v_[0] != "call" or not isinstance(v_[1], str):
+                    return False
+                if v_[1] != want and (v_[1].rsplit(".", 1)[-1].startswith("SphHarm")):
+                    return True
+                if v_[1] == want and not v_[3] and sorted(map(show, v_[2])) == sorted(map(show, want_args)) and list(v_[2]) != want_args:
+                    return True
+                return False
+            ok = False if any(wrong_call(r.data["value"]) for r in finals) else None
         if lv <= 10:
             run.ob("R-DISPATCH", fq, key, ok, f"degree {lv} returns SphHarm{lv}(theta, phi)", f"returns {show(val)[:100]}",
-                   witness=None if ok else f"sph_harm_l({lv}, theta, phi) evaluates {show(val)[:80]}", loc=loc_of(it, finals[0]))
+                   witness=None if ok else f"sph_harm_l({lv}, theta, phi) evaluates {show(val)[:80]}", loc=loc_of(it, finals[0]), sound=True)
         else:
             run.ob("R-DISPATCH", fq, key, ok, f"degree {lv} > 10 delegates to SphHarm_above(l, theta, phi)",
-                   f"returns {show(val)[:100]}", witness=None if ok else f"l={lv}", loc=loc_of(it, finals[0]))
+                   f"returns {show(val)[:100]}", witness=None if ok else f"l={lv}", loc=loc_of(it, finals[0]), sound=True)
     run.minimum("R-DISPATCH", 12)
 
     # ---------------------------------------------------------------- delegated call convention
@@ -368,8 +379,7 @@ def check_above(run: Run, pkg: Package) -> None:
     # ---- resolve the callee through module-level bindings (import and/or fallback def)
     bindings = _module_level_candidates(pkg, mi, local)
     if not bindings:
-        run.ob("R-API", fq, f"binding {local}", False, f"{local} is bound at module level", "no import or def found",
-               witness=f"name {local} undefined", loc=loc_of(it, ev))
+        run.ob("R-API", fq, f"binding {local}", None, f"{local} is bound at module level", "no import or def found", loc=loc_of(it, ev))
         return
     variants = []     # (description, roles)
     for b in bindings:
@@ -387,7 +397,7 @@ def check_above(run: Run, pkg: Package) -> None:
                 run.ob("R-API", short(mi.name), f"import {qual}", False, f"{qual} resolves in the installed distribution",
                        f"scipy {scipy.__version__} has no attribute {qual.rsplit('.', 1)[-1]}; import is "
                        + ("guarded but no fallback binds the name" if guarded else "unguarded: the module cannot be imported"),
-                       witness=f"import {mi.name} raises ImportError", loc=mi.relpath)
+                       witness=f"import {mi.name} raises ImportError", loc=mi.relpath, sound=True)     # attribute lookup in the installed distribution
             if qual in LIB_SIG:
                 sig = LIB_SIG[qual]
                 variants.append((qual, {sig[i]: a for i, a in enumerate(call[2]) if i < len(sig)}))
@@ -422,8 +432,8 @@ def check_above(run: Run, pkg: Package) -> None:
                        f"delegates to {inner_name}")
                 continue
             ex = lib_exists(inner_qual)
-            run.ob("R-API", short(mi.name), f"import {inner_qual}", ex, f"{inner_qual} exists in the installed distribution",
-                   "" if ex else "missing", witness=None if ex else f"{inner_qual} missing", loc=mi.relpath)
+            run.ob("R-API", short(mi.name), f"import {inner_qual}", True if ex else None, f"{inner_qual} exists in the installed distribution",
+                   "" if ex else "missing", loc=mi.relpath)
             sig = LIB_SIG[inner_qual]
             # outer call args bound to wrapper params
             outer = {}
@@ -461,15 +471,16 @@ def check_above(run: Run, pkg: Package) -> None:
                             dom = g[1]
     want_dom = ("call", "builtins.range", (("un", "-", L), ("bin", "+", L, C(1))), ())
     ok_dom = dom == want_dom
-    run.ob("R-LOOPDOM", fq, "m-range", ok_dom if ok_dom else (False if dom is not None and dom[0] == "call" and dom[1] == "builtins.range" else None),
+    run.ob("R-LOOPDOM", fq, "m-range", True if ok_dom else (eqv(dom, want_dom) if dom is not None else None),
            "order m runs over range(-l, l+1)", f"iterates {show(dom) if dom is not None else '?'}",
-           witness=None if ok_dom else f"l=11: {show(dom) if dom is not None else '?'}", loc=loc_of(it, ev))
+           witness=None if ok_dom else f"l=11: {show(dom) if dom is not None else '?'}", loc=loc_of(it, ev), sound=True)
 
     def is_azimuth(t):
         if t == PH_:
             return True
         # phi shifted by 2 pi only when negative
-        if t[0] == "phi" and t[1] == ("cmp", "<", PH_, C(0)) and t[3] == PH_ and t[2][0] == "bin" and t[2][1] == "+":
+        if t[0] == "phi" and t[1][0] == "cmp" and t[3] == PH_ and t[2][0] == "bin" and t[2][1] == "+":
+            # phi or phi + 2 pi under any test: the harmonics are 2 pi-periodic in the azimuth for integer order
             a, b = t[2][2], t[2][3]
             other = b if a == PH_ else (a if b == PH_ else None)
             if other is not None:
@@ -487,10 +498,15 @@ def check_above(run: Run, pkg: Package) -> None:
         want = {"order": lambda t: t == lv, "degree": lambda t: t == L, "polar": lambda t: t == TH_, "azimuth": is_azimuth}
         for role, pred in want.items():
             got = roles.get(role)
-            ok = got is not None and pred(got)
+            ok = True if (got is not None and pred(got)) else None
+            if ok is None and got is not None:
+                # definite: the slot receives the quantity that belongs to another role
+                others = [r2 for r2, p2 in want.items() if r2 != role and p2(got)]
+                if others:
+                    ok = False
             run.ob("R-ANGLE", fq, f"{desc}:{role}", ok, f"delegated call via {desc} passes the {role} in the library's slot",
                    f"slot receives {show(got) if got is not None else 'nothing'}",
-                   witness=None if ok else f"{desc}: {role} <- {show(got) if got is not None else 'missing'}", loc=loc_of(it, ev))
+                   witness=None if ok else f"{desc}: {role} <- {show(got) if got is not None else 'missing'}", loc=loc_of(it, ev), sound=True)
     # result order: the returned array is built from the per-m values in loop order
     ret = it.returns[0].data["value"] if it.returns else NONE
     run.ob("R-ANGLE", fq, "result-order", True if it.returns else None, "per-m values are returned in loop order", show(ret)[:80])
